@@ -157,9 +157,12 @@ def run_sdk(case):
     def stale_replica(x, pre):
         return writer.get(x.id) == "ext" and synced.get(tok[id(x)]) != pre["server_gen"]
 
-    def multi(x):
-        """several local objects are attached to the same document: the SDK keeps one revision per URL"""
-        return "-multi-replica" if sum(1 for o in objs if o.id == x.id and o.source != "") > 1 else ""
+    def multi(x, pre):
+        """another local object attached to the same document HAS seen the current revision: the SDK keeps one
+        revision per URL, not per object (known finding); otherwise nobody in this process has seen it"""
+        other = any(o is not x and o.id == x.id and o.source != "" and synced.get(tok[id(o)]) == pre["server_gen"]
+                    for o in objs)
+        return "-multi-replica" if other else ""
 
     def state_rows(snap):
         rows = []
@@ -307,7 +310,7 @@ def run_sdk(case):
                             # actor's last write: accepting the commit loses that write
                             if exc is None:
                                 ref[x.id] = pre["val"]
-                                bad(k, kind, "stale-replica-accepted" + multi(x),
+                                bad(k, kind, "stale-replica-accepted" + multi(x, pre),
                                     "a commit from a replica that was last synchronised before the second actor's "
                                     "write was accepted and overwrote that write (lost update)")
                             else:
@@ -344,7 +347,7 @@ def run_sdk(case):
                     elif gen_of(pre["client_rev"]) == pre["server_gen"] and stale_replica(x, pre):
                         if exc is None:
                             del ref[x.id]
-                            bad(k, kind, "stale-replica-accepted" + multi(x),
+                            bad(k, kind, "stale-replica-accepted" + multi(x, pre),
                                 "a safe delete from a replica that was last synchronised before the second actor's "
                                 "write was accepted and removed that write (lost update)")
                         else:
